@@ -565,6 +565,89 @@ pub fn check_no_overclaim(sim: &Sim, issuer: &str) -> Result<usize, Bad> {
     Ok(n)
 }
 
+fn ranges_within(inner: &[(u128, u128)], outer_a: &[(u128, u128)], outer_b: &[(u128, u128)]) -> bool {
+    // outer = merged union of a and b
+    let mut outer: Vec<(u128, u128)> = outer_a.iter().chain(outer_b.iter()).copied().collect();
+    outer.sort();
+    let mut merged: Vec<(u128, u128)> = Vec::new();
+    for (lo, hi) in outer {
+        match merged.last_mut() {
+            Some(last) if lo <= last.1.saturating_add(1) => last.1 = last.1.max(hi),
+            _ => merged.push((lo, hi)),
+        }
+    }
+    inner.iter().all(|(lo, hi)| merged.iter().any(|(a, b)| a <= lo && hi <= b))
+}
+
+/// C02 "every certificate issued to a child contains the child's entitlement
+/// intersected with the issuing key's resources", judged at the moment of
+/// issuing: to be called after every operation and every background task. A
+/// certificate (per child key, read from the issuer's own state) whose serial
+/// changed since the last call was issued during that step; whatever it
+/// carries beyond its predecessor must lie within the child's entitlement as
+/// it is now (a certificate for a key that had none - first issue,
+/// unsuspension - must lie within it completely). Krill shrinks certificates
+/// to the entitlement only when the child asks, so what a re-issued
+/// certificate keeps from its predecessor is not judged here (the convergence
+/// clause does that).
+pub fn check_issued_within_entitlement(sim: &Sim) -> Result<usize, Bad> {
+    let mut judged = 0;
+    let mut prev_all = sim.prev_child_certs.lock().unwrap_or_else(|e| e.into_inner());
+    let mut problem = None;
+    for (issuer, pm) in &sim.model.cas {
+        let Ok(handle) = CaHandle::from_str(issuer) else { continue };
+        let Ok(ca) = sim.w().cam().get_ca(&handle) else { continue };
+        let Ok(json) = serde_json::to_value(&*ca) else { continue };
+        // child key -> child (the issuer's own record of the keys its children use)
+        let mut key_owner: BTreeMap<String, String> = BTreeMap::new();
+        if let Some(children) = json.get("children").and_then(|c| c.as_object()) {
+            for (child, details) in children {
+                if let Some(keys) = details.get("used_keys").and_then(|k| k.as_object()) {
+                    for k in keys.keys() {
+                        key_owner.insert(k.clone(), child.clone());
+                    }
+                }
+            }
+        }
+        let mut now_map: BTreeMap<String, (String, ResourceSet)> = BTreeMap::new();
+        if let Some(classes) = json.get("resources").and_then(|r| r.as_object()) {
+            for rc in classes.values() {
+                let Some(issued) = rc.get("certificates").and_then(|c| c.get("issued")).and_then(|i| i.as_object()) else { continue };
+                for (key, cert) in issued {
+                    let serial = cert.get("serial").map(|s| s.to_string()).unwrap_or_default();
+                    let Some(rs) = cert.get("resources").and_then(|r| serde_json::from_value::<ResourceSet>(r.clone()).ok()) else { continue };
+                    now_map.insert(key.clone(), (serial, rs));
+                }
+            }
+        }
+        let prev = prev_all.get(issuer).cloned().unwrap_or_default();
+        for (key, (serial, rs)) in &now_map {
+            if prev.get(key).map(|p| &p.0) == Some(serial) {
+                continue;
+            }
+            let Some(child) = key_owner.get(key) else { continue };
+            let Some(cm) = pm.children.get(child) else { continue };
+            judged += 1;
+            let (a, v4, v6) = rs_ranges(rs);
+            let (ea, e4, e6) = rs_ranges(&cm.entitlement);
+            let (pa, p4, p6) = prev.get(key).map(|p| rs_ranges(&p.1)).unwrap_or_default();
+            if problem.is_none() && !(ranges_within(&a, &ea, &pa) && ranges_within(&v4, &e4, &p4) && ranges_within(&v6, &e6, &p6)) {
+                let before = prev.get(key).map(|p| format!("[{}]", p.1)).unwrap_or_else(|| "none".into());
+                problem = Some(bad(
+                    "c02-issued-beyond-entitlement",
+                    if prev.contains_key(key) { "re-issued-cert" } else if cm.ever_suspended { "new-cert-after-suspension" } else { "new-cert" },
+                    format!("{issuer} issued a certificate (serial {serial}) for key {key} of {child} with resources [{rs}]; the entitlement of {child} is [{}] and the previous certificate of that key was {before}", cm.entitlement),
+                ));
+            }
+        }
+        prev_all.insert(issuer.clone(), now_map);
+    }
+    match problem {
+        Some(b) => Err(b),
+        None => Ok(judged),
+    }
+}
+
 /// C02 exactness + convergence, to be called after `converge`.
 pub fn check_delegation_converged(sim: &Sim) -> Result<usize, Bad> {
     let mut checked = 0;
